@@ -153,6 +153,11 @@ def monitors(s):
             hs = [h for h in s["hist"] if h["pid"] == a["pid"]]
             if steps != ["a", "b", "exit_begin", "exit_end"] or len(hs) != 1 or hs[0]["status"] != "finished":
                 out.append(("run %s was disturbed: steps %s, history %s" % (a["tag"], steps, hs), [a["i"]]))
+    for a in ps:
+        su, iv = anchor(a, "shutunlink"), exec_interval(a)
+        if su and su["ok"] and iv and hi(su) < iv[1] - 0.05:
+            out.append(("run %s removed its status socket %.2f s before its steps and handlers had ended (an active run must keep its endpoint)"
+                        % (a["tag"], iv[1] - hi(su)), [a["i"]]))
     for a, b in itertools.combinations(ps, 2):
         ia, ib = exec_interval(a), exec_interval(b)
         if ia and ib and ia[0] < ib[1] and ib[0] < ia[1]:
